@@ -440,6 +440,10 @@ export class SchemaPrintingContext {
     this.inProgressDefinitions[name] = true;
   }
 
+  clearDefinitionInProgress(name: string): void {
+    delete this.inProgressDefinitions[name];
+  }
+
   storeDefinition(name: string, schema: JSONSchema7Definition): void {
     this.collectedDefinitions[name] = schema;
     delete this.inProgressDefinitions[name];
@@ -1810,7 +1814,13 @@ export class AnyOfDiscriminatedRuntype extends BaseRuntype {
     }
     printingContext.markDefinitionInProgress(name);
     const schemaTarget = printingContext.getNamedTypeSchemaOverride(name) ?? target;
-    const body = schemaTarget.schema(ctx);
+    let body: JSONSchema7;
+    try {
+      body = schemaTarget.schema(ctx);
+    } catch (e) {
+      printingContext.clearDefinitionInProgress(name);
+      throw e;
+    }
     printingContext.storeDefinition(name, body);
   }
 
@@ -2325,7 +2335,13 @@ export abstract class BaseRefRuntype extends BaseRuntype {
       if (!printingContext.hasDefinition(name) && !printingContext.isDefinitionInProgress(name)) {
         printingContext.markDefinitionInProgress(name);
         const schemaTarget = printingContext.getNamedTypeSchemaOverride(name) ?? to;
-        const body = schemaTarget.schema(ctx);
+        let body: JSONSchema7;
+        try {
+          body = schemaTarget.schema(ctx);
+        } catch (e) {
+          printingContext.clearDefinitionInProgress(name);
+          throw e;
+        }
         printingContext.storeDefinition(name, body);
       }
       return annotateSchema(this.metadata, { $ref: printingContext.getRef(name) });
